@@ -261,7 +261,7 @@ def realise(cc, flip=False):
     return tuple(untagx(v) for v in cc['pos']), {n: untagx(v) for n, v in kw}
 
 
-FEATURES = ('kwargs_support', 'pd2np', 'cache', 'loops', 'try', 'extra_kw_for_varkw', 'no_first_arg', 'bad_passed', 'eager',
+FEATURES = ('long_history', 'kw_reordered', 'kwargs_support', 'pd2np', 'cache', 'loops', 'try', 'extra_kw_for_varkw', 'no_first_arg', 'bad_passed', 'eager',
             'list_tuple_twin', 'unhashable_arg', 'quiet_passed', 'alt_defaults', 'mutable_fallback',
             'options_set', 'interrupt', 'reused_binding', 'edited_binding', 'second_function')
 BAD_VALUES = [["s", m] for m in FAIL_MARKS]
@@ -353,7 +353,14 @@ def s2c_bind(ctx, rep, cases):
                         {'expected': case['argspec'], 'observed': argspec_of(ws[kind])})
             per_sig[key] = (f, ws)
         f, ws = per_sig[key]
-        args, kwargs = realise(cc)
+        # one spelling per case, in rotation (every order of every call of the "order" universe: s2c_order)
+        names = [nm for nm, _ in cc['kw']]
+        if names:
+            r = n % len(names)
+            names = names[r:] + names[:r]
+            if (n // len(names)) % 2:
+                names.reverse()
+        args, kwargs = spell(cc, names)
         if case['valid']:
             # the specification against Python itself (machinery, not a verdict on pyg-base)
             if outcome(inspect.getcallargs, f, *args, **kwargs) != case['bind']:
@@ -550,6 +557,45 @@ def s2c_exc(ctx, rep, cases):
                 ctx.note(('exc', json.dumps(kinds), fail_mark(cc), json.dumps(cc)))
         if n % 101 == 0:
             ctx.sample({'s2c_exc_case': {k: (v if k != 'outs' else v[:3]) for k, v in case.items()}})
+        ctx.traces += 1
+
+
+# ------------------------------------------------------------------------------------------------
+# S2C (b''): every ORDER in which the keywords of a call can be written, the failing value in every place
+# ------------------------------------------------------------------------------------------------
+def s2c_order(ctx, rep, cases):
+    cases.sort(key=lambda c: (len(c['kinds']), json.dumps(c['kinds']), json.dumps(c['sig'], sort_keys=True)))
+    for n, case in enumerate(cases):
+        sig, kinds, chain = case['sig'], case['kinds'], case['chain']
+        f = base_function(sig)
+        w = build_chain(kinds, f)
+        classes = [c for c, _ in chain]
+        ctx.evals += 1
+        if project(w, f) != chain:
+            rep('normal_form', {'part': 'order', 'op': 'wrap', 'kinds': kinds}, {'sig': sig}, {'expected': chain, 'observed': project(w, f)})
+            continue
+        call = outcome if 'cache' in classes else call_and_mutate
+        for cc, want in sorted(case['outs'], key=json.dumps):
+            if want[0] == 'unspec':
+                continue
+            names = [nm for nm, _ in cc['kw']]
+            for perm in case['orders'][len(names) - 1]:           # every order TLC lists for that many keywords
+                order = [names[i - 1] for i in perm]
+                args, kwargs = spell(cc, order)
+                got = call(w, *args, **kwargs)
+                ctx.evals += 1
+                if got != want:
+                    keys = {'part': 'order', 'op': 'call', 'kinds': kinds, 'kw_reordered': order != names,
+                            'first_param_written_first': bool(cc['pos']) or order[0] == 'a'}
+                    keys.update(describe(sig, classes, cc))
+                    rep(call_clause(keys), keys, {'sig': sig, 'cc': cc, 'order': order}, {'expected': want, 'observed': got})
+                elif [tagx(x) for x in args] != cc['pos'] or [[k, tagx(v)] for k, v in sorted(kwargs.items())] != cc['kw']:
+                    rep('argument_changed', {'part': 'order', 'op': 'call', 'kinds': kinds}, {'sig': sig, 'cc': cc, 'order': order},
+                        {'observed_arguments': [[tagx(x) for x in args], tagx(kwargs)]})
+            if len(names) >= 3:
+                ctx.note(('order', json.dumps(kinds), json.dumps(cc)))
+        if n % 53 == 0:
+            ctx.sample({'s2c_order_case': {k: (v if k not in ('outs', 'orders') else v[:2]) for k, v in case.items()}})
         ctx.traces += 1
 
 
@@ -765,13 +811,15 @@ def rand_call(rng, sig, allow_extra_kw, value=rand_value, bad=0.15, quiet=0.1):
     return {'pos': pos, 'kw': kw}
 
 
-def observe_bind(rng):
+def observe_bind(rng, sig=None, cc=None):
     P = pyg()[0]
-    sig = rand_sig(rng)
-    cc = rand_call(rng, sig, allow_extra_kw=sig['varkw'] or rng.random() < 0.4)
+    if sig is None:
+        sig = rand_sig(rng)
+        cc = rand_call(rng, sig, allow_extra_kw=sig['varkw'] or rng.random() < 0.4)
     f = base_function(sig)
-    args, kwargs = realise(cc)
-    o = {'part': 'bind', 'sig': sig, 'cc': cc, 'argspec': py_argspec_of(f), 'pyg_argspec': argspec_of(f),
+    order = kw_order(rng, cc)                                 # the order the keywords are written in, for every call below
+    args, kwargs = spell(cc, order)
+    o = {'part': 'bind', 'sig': sig, 'cc': cc, 'order': order, 'argspec': py_argspec_of(f), 'pyg_argspec': argspec_of(f),
          'inspect': outcome(inspect.getcallargs, f, *args, **kwargs), 'self': outcome(f, *args, **kwargs),
          'getcallargs': outcome(P.getcallargs, f, *args, **kwargs)}
     try:
@@ -810,10 +858,11 @@ def observe_hist(rng, nmax):
             i = rng.randint(0, len(live))
             classes = [c for c, _ in project(live[i - 1], f)] if i > 0 else []
             cc = rng.choice(plain + extra if ('kwargs_support' in classes or sig['varkw']) else plain)
-            args, kwargs = realise(cc, flip=rng.random() < 0.5)
+            order = kw_order(rng, cc)
+            args, kwargs = spell(cc, order)
             own = 'cache' not in classes and rng.random() < 0.6   # the caller mutates what it was given (never what a memo serves)
             out = (call_and_mutate if own else outcome)(f if i == 0 else live[i - 1], *args, **kwargs)
-            events.append({'op': 'call', 'obj': i, 'cc': cc, 'out': out, 'heap': [project(o, f) for o in live], 'evals': f.counter[0]})
+            events.append({'op': 'call', 'obj': i, 'cc': cc, 'order': order, 'out': out, 'heap': [project(o, f) for o in live], 'evals': f.counter[0]})
             if own and out[0] in ('l', 'm'):
                 events.append({'op': 'mutate'})
     return {'part': 'hist', 'sig': sig, 'events': events}
@@ -836,7 +885,8 @@ def observe_args(rng, nmax):
         r = rng.random()
         if not mine or (len(mine) < 4 and r < 0.25):
             o, cc = rng.randint(0, 1), rng.choice(pool)
-            args, kwargs = realise(cc, flip=rng.random() < 0.5)
+            order = kw_order(rng, cc)
+            args, kwargs = spell(cc, order)
             try:
                 D = P.getcallargs(objs[o], *args, **kwargs)
                 out = tagx(D)
@@ -844,7 +894,7 @@ def observe_args(rng, nmax):
                 D, out = None, ["exc", type(e).__name__]
             if isinstance(D, dict):
                 mine.append(D)
-            events.append({'op': 'get', 'obj': o, 'cc': cc, 'i': 0, 'e': '', 'out': out})
+            events.append({'op': 'get', 'obj': o, 'cc': cc, 'order': order, 'i': 0, 'e': '', 'out': out})
         elif edits and r < 0.5:
             i, e = rng.randrange(len(mine)), rng.choice(edits)
             try:
@@ -896,10 +946,11 @@ def observe_deco(rng, nmax):
             i = rng.randrange(len(live))
             classes = [c for c, _ in project2(live[i], fs)['chain']]
             cc = rng.choice(plain + extra if ('kwargs_support' in classes or sig['varkw']) else plain)
-            args, kwargs = realise(cc, flip=rng.random() < 0.5)
+            order = kw_order(rng, cc)
+            args, kwargs = spell(cc, order)
             before = [f.counter[0] for f in fs]
             out = (outcome if 'cache' in classes else call_and_mutate)(live[i], *args, **kwargs)
-            events.append({'op': 'call', 'k': 0, 'on': i + 1, 'cc': cc, 'out': out, 'evals': [f.counter[0] - b for f, b in zip(fs, before)]})
+            events.append({'op': 'call', 'k': 0, 'on': i + 1, 'cc': cc, 'order': order, 'out': out, 'evals': [f.counter[0] - b for f, b in zip(fs, before)]})
         events[-1]['heap'] = [project2(o, fs) for o in live]
         events[-1]['specs'] = [argspec_of(o) for o in live] if events[-1]['op'] == 'decorate' else []
     return {'part': 'deco', 'sigs': sigs, 'kinds': kinds, 'layers': layers, 'events': events}
@@ -950,9 +1001,213 @@ def observe_memo(rng, nmax):
     events = []
     for _ in range(rng.randint(5, nmax)):
         cc = rng.choice(keys)
-        args, kwargs = realise(cc, flip=rng.random() < 0.5)
-        events.append({'cc': cc, 'out': outcome(c, *args, **kwargs), 'evals': f.counter[0]})
+        order = kw_order(rng, cc)
+        args, kwargs = spell(cc, order)
+        events.append({'cc': cc, 'order': order, 'out': outcome(c, *args, **kwargs), 'evals': f.counter[0]})
     return {'part': 'memo', 'sig': sig, 'events': events}
+
+
+# ------------------------------------------------------------------------------------------------
+# C2S, scaled: LONG histories on ONE object.  The laws are laws of histories of any length (Decorators.tla (c'):
+# MemoScales / TransparentForever); TLC decides the small pattern, the trace specification folds the long one.
+# ------------------------------------------------------------------------------------------------
+SIG_AB = {'npos': 2, 'ndef': 1, 'varargs': False, 'varkw': False, 'alt': False}        # f(a, b='db')
+SIG_STAR = {'npos': 1, 'ndef': 0, 'varargs': True, 'varkw': True, 'alt': False}        # f(a, *args, **kw)
+SIG_ABC = {'npos': 3, 'ndef': 2, 'varargs': False, 'varkw': True, 'alt': False}        # f(a, b='db', c='dc', **kw)
+LONG_SHAPES = {                                             # the i-th distinct combination of arguments, as passed
+    'positional': (SIG_AB, lambda i: {'pos': [["i", i]], 'kw': []}),                                   # f(i)
+    'keyword': (SIG_AB, lambda i: {'pos': [], 'kw': [['a', ["i", 1]], ['b', ["i", i]]]}),             # f(a=1, b=i)
+    'mixed': (SIG_AB, lambda i: {'pos': [["i", 1]], 'kw': [['b', ["i", i]]]}),                        # f(1, b=i)
+    'container': (SIG_AB, lambda i: {'pos': [["t", [["i", i // 16], ["t", [["s", 'k%d' % (i % 16)], NONE]]]]], 'kw': []}),   # f((i//16, ('k3', None)))
+    'str': (SIG_AB, lambda i: {'pos': [["s", 'key%d' % i]], 'kw': []}),                               # f('key7')
+    'varargs': (SIG_STAR, lambda i: {'pos': [["i", 1], ["i", i % 7], ["i", i // 7]], 'kw': []}),      # f(1, i%7, i//7)
+    'extra_kw': (SIG_STAR, lambda i: {'pos': [["i", i % 5]], 'kw': [['x', ["i", i // 5]], ['y', ["s", "ky"]]]}),   # f(i%5, x=i//5, y='ky')
+    'three_kw': (SIG_ABC, lambda i: {'pos': [], 'kw': [['a', ["i", i % 3]], ['c', ["i", i // 3]], ['z', NONE]]}),  # f(a=i%3, c=i//3, z=None)
+    # keywords that f does not declare: only for kwargs_support(f) and what is built on it
+    'dropped_kw': (SIG_AB, lambda i: {'pos': [], 'kw': [['a', ["i", i % 3]], ['b', ["i", i // 3]], ['x', ["i", i % 4]]]}),   # f(a=i%3, b=i//3, x=i%4)
+}
+
+
+def long_schedule(n, rng):
+    """indices of the combinations called: n distinct ones in order (every 37th repeated on the spot), then repeats of
+    early, middle and late ones, a further new one, and the early ones once more"""
+    idx = []
+    for i in range(n):
+        idx.append(i)
+        if i % 37 == 36:
+            idx.append(i)
+    early, middle, late = [0, 1, 2, 15, 16], [n // 2 - 1, n // 2, n // 4, 3 * n // 4], [n - 1, n - 2, n - 17]
+    again = early + middle + late + [rng.randrange(n) for _ in range(20)]
+    idx += again + [n, n + 1] + early[::-1] + [n, rng.randrange(n)]
+    return idx
+
+
+def kw_order(rng, cc):
+    """an order in which the keywords of cc are WRITTEN at the call site (Decorators.tla IsSpelling)"""
+    names = [n for n, _ in cc['kw']]
+    rng.shuffle(names)
+    return names
+
+
+def spell(cc, order):
+    vals = dict((n, v) for n, v in cc['kw'])
+    return tuple(untagx(v) for v in cc['pos']), {n: untagx(vals[n]) for n in order}
+
+
+def observe_long_memo(rng, shape, n):
+    """cache(f) for a counting f: n distinct combinations of one shape, then repeats (part "memo")"""
+    cache = pyg()[3]
+    sig, key = LONG_SHAPES[shape]
+    f = base_function(sig, counting=True)
+    c = cache(f)
+    events = []
+    for i in long_schedule(n, rng):
+        cc = key(i)
+        order = kw_order(rng, cc)
+        args, kwargs = spell(cc, order)
+        events.append({'cc': cc, 'order': order, 'out': outcome(c, *args, **kwargs), 'evals': f.counter[0]})
+    return {'part': 'memo', 'sig': sig, 'events': events, 'long': {'shape': shape, 'distinct': n + 2, 'object': 'cache(f)'}}
+
+
+# (chain of kinds outermost first, shapes of the combinations it is called with)
+LONG_CHAINS = [(['try_none', 'cache'], ['positional', 'extra_kw']), (['kwargs_support', 'cache'], ['mixed', 'three_kw']),
+               (['cache', 'try_back'], ['keyword', 'container']), (['cache', 'kwargs_support'], ['dropped_kw', 'str']),
+               (['pd2np', 'cache'], ['container', 'varargs']), (['cache', 'loops'], ['str', 'keyword']),
+               (['try_zero', 'kwargs_support', 'cache'], ['varargs', 'positional']), (['cache', 'try_list'], ['three_kw', 'mixed']),
+               # no memo: transparency after many calls on one wrapper object
+               (['try_back'], ['three_kw']), (['kwargs_support'], ['dropped_kw']), (['loops'], ['keyword']), (['pd2np'], ['extra_kw']),
+               (['try_zero'], ['mixed']), (['try_back', 'kwargs_support'], ['dropped_kw']), (['pd2np_exc', 'try_none'], ['varargs'])]
+
+
+def observe_long_hist(rng, kinds, shape, n):
+    """one wrapper object (the chain `kinds` over a counting f) called n times and more (part "hist").  With a cache layer:
+    n distinct combinations, then repeats.  Without: calls drawn from a pool of ordinary, failing and quiet ones, the
+    same combination coming back after hundreds of others."""
+    sig, key = LONG_SHAPES[shape]
+    f = base_function(sig, counting=True)
+    live, events = [], []
+    for k, kind in enumerate(reversed(kinds)):
+        layer = layer_of(kind)
+        live.append(decorator(layer)(f if k == 0 else live[-1]))
+        events.append({'op': 'wrap', 'layer': layer, 'target': k, 'heap': [project(o, f) for o in live],
+                       'specs': [argspec_of(o) for o in live], 'evals': f.counter[0]})
+    w = live[-1]
+    classes = [c for c, _ in project(w, f)]
+    memo = 'cache' in classes
+    extra_ok = sig['varkw'] or 'kwargs_support' in classes
+    sched = long_schedule(n, rng) if memo else [rng.randrange(40) for _ in range(n)]
+    for j, i in enumerate(sched):
+        cc = key(i)
+        if not memo:
+            cc = copy.deepcopy(cc)
+            r = (i * 7 + 3) % 10                              # a property of the combination, not of the moment
+            if r == 0:                                        # f raises: the marker is the first argument / the last one
+                mark = ["s", FAIL_MARKS[i % 8]]
+                if i % 2 and cc['kw']:
+                    cc['kw'][-1][1] = mark
+                elif cc['pos']:
+                    cc['pos'][0] = mark
+                else:
+                    cc['kw'][0][1] = mark
+            elif r == 1 and cc['pos']:
+                cc['pos'][0] = ["s", "quiet"]
+            elif r == 2 and extra_ok:
+                cc['kw'] = sorted(cc['kw'] + [['w', ["i", i]], ['value', ["s", "u"]]])
+        order = kw_order(rng, cc)
+        args, kwargs = spell(cc, order)
+        below = [c for c, _ in project(live[-2], f)] if len(live) > 1 else []
+        valid_below = sig['varkw'] or 'kwargs_support' in below or all(nm in NAMES[:sig['npos']] for nm, _ in cc['kw'])
+        obj = len(live) - 1 if (not memo and j % 50 == 0 and valid_below) else len(live)       # now and then the object underneath (0 = f itself)
+        own = not memo and j % 3 == 0
+        out = (call_and_mutate if own else outcome)(f if obj == 0 else live[obj - 1], *args, **kwargs)
+        events.append({'op': 'call', 'obj': obj, 'cc': cc, 'order': order, 'out': out, 'heap': [project(o, f) for o in live], 'evals': f.counter[0]})
+        if own and out[0] in ('l', 'm'):
+            events.append({'op': 'mutate'})
+    return {'part': 'hist', 'sig': sig, 'events': events, 'long': {'shape': shape, 'distinct': n + 2 if memo else 40, 'object': kinds}}
+
+
+def observe_long_deco(rng, kind, shape, n):
+    """ONE ready-made decorator object applied to two functions made from one code object; each decorated function is
+    called with n distinct combinations (interleaved), then with repeats (part "deco")"""
+    sig, key = LONG_SHAPES[shape]
+    sigs = [sig, dict(sig, alt=True)] if sig['ndef'] else [sig, sig]
+    fs = [base_function(s_) for s_ in sigs]
+    deco = ready_made(kind)
+    live, events = [], []
+    empty = {'pos': [], 'kw': []}
+    for fn in (1, 2):
+        live.append(deco(fs[fn - 1]))
+        events.append({'op': 'decorate', 'k': 1, 'on': -fn, 'cc': empty, 'order': [], 'out': NONE, 'evals': [0, 0],
+                       'heap': [project2(o, fs) for o in live], 'specs': [argspec_of(o) for o in live]})
+    heap = [project2(o, fs) for o in live]
+    cached = 'cache' in [c for c, _ in heap[0]['chain']]
+    for j, i in enumerate(long_schedule(n, rng)):
+        for on in ((1, 2) if j % 2 == 0 else (2, 1)):
+            cc = key(i)
+            order = kw_order(rng, cc)
+            args, kwargs = spell(cc, order)
+            before = [f.counter[0] for f in fs]
+            out = (outcome if cached else call_and_mutate)(live[on - 1], *args, **kwargs)
+            events.append({'op': 'call', 'k': 0, 'on': on, 'cc': cc, 'order': order, 'out': out, 'evals': [f.counter[0] - b for f, b in zip(fs, before)],
+                           'heap': [project2(o, fs) for o in live] if j % 97 == 0 else heap, 'specs': []})
+    return {'part': 'deco', 'sigs': sigs, 'kinds': [kind], 'layers': [layer_of(kind)], 'events': events,
+            'long': {'shape': shape, 'distinct': n + 2, 'object': kind}}
+
+
+def observe_wide_bind(rng, width):
+    """one call with MANY members: `width` extra positional arguments and `width` extra keywords (part "bind")"""
+    sig = dict(rng.choice([SIG_STAR, {'npos': 2, 'ndef': 1, 'varargs': True, 'varkw': True, 'alt': False}]))
+    cc = {'pos': [["i", 1], ["i", 2]] + [["i", j % 50] for j in range(width)],
+          'kw': sorted([['k%04d' % j, ["i", j % 9]] for j in range(width)] + [['x', ["s", "kx"]]])}
+    if width % 2 == 0:                                        # f raises on the LAST of many arguments
+        cc['pos'][-1] = ["s", "bad_bare"]
+    return dict(observe_bind(rng, sig, cc), long={'shape': 'wide_call', 'distinct': width, 'object': 'every layer'})
+
+
+def long_observations(ctx):
+    rng = ctx.rng
+    obs = []
+    shapes = sorted(s_ for s_ in LONG_SHAPES if s_ != 'dropped_kw')
+    # cache(f): every shape at 300; 1100 (2100) in rotation
+    for k, shape in enumerate(shapes):
+        obs.append(observe_long_memo(rng, shape, 300))
+        if not ctx.quick or k % 2 == 0:
+            obs.append(observe_long_memo(rng, shape, 1100))
+        if not ctx.quick and k % 3 == 0:
+            obs.append(observe_long_memo(rng, shape, 2100))
+    # every other memoising wrapper of the universe (chains with a cache layer), every non-memo wrapper: one object, a long history
+    for k, (kinds, shs) in enumerate(LONG_CHAINS):
+        memo = 'cache' in kinds
+        obs.append(observe_long_hist(rng, kinds, shs[0], 300 if memo else 400))
+        if memo and (not ctx.quick or k % 4 == 0):
+            obs.append(observe_long_hist(rng, kinds, shs[1], 1100))
+    for width in ([17, 66, 257] if ctx.quick else [17, 65, 66, 101, 257, 1026]):
+        obs.append(observe_wide_bind(rng, width))
+    for k, kind in enumerate(['cache'] + ([] if ctx.quick else ['try_back', 'kwargs_support', 'try_zero_verbose'])):
+        obs.append(observe_long_deco(rng, kind, ('positional', 'mixed', 'keyword', 'str')[k], 300))
+    if not ctx.quick:
+        obs.append(observe_long_deco(rng, 'cache', 'container', 1100))
+    return obs
+
+
+def long_canaries(obs):
+    """a long history whose LAST repeat of an early combination was evaluated once more / a keyword order that is no spelling
+    of the call / a late call on a wrapper object that returned something else: the trace specification must reject them"""
+    out = []
+    o = copy.deepcopy([x for x in obs if x['part'] == 'memo' and x['long']['distinct'] > 1000][0])
+    k = len(o['events']) - 2                                  # the new combination n called a second time
+    for e in o['events'][k:]:
+        e['evals'] += 1
+    o['events'][k]['out'][1][1] = ["i", o['events'][k]['evals']]
+    out.append(dict(o, canary=True))
+    o = copy.deepcopy([x for x in obs if x['part'] == 'memo' and x['events'][-1]['order']][0])
+    o['events'][-1]['order'][0] = 'nobody'
+    out.append(dict(o, canary=True))
+    o = copy.deepcopy([x for x in obs if x['part'] == 'hist' and x['long']['object'] == ['try_back']][0])
+    e = [e for e in o['events'] if e['op'] == 'call' and e['out'][0] == 't'][-1]
+    e['out'][1][0][1][0][1] = ["s", "corrupted"]
+    out.append(dict(o, canary=True))
+    return out
 
 
 def canaries(obs):
@@ -994,6 +1249,16 @@ def hist_case(o, clause_at):
         return clause, keys, {'sig': o['sig'], 'cc': o['cc']}, {k: o[k] for k in ('inspect', 'pyg_argspec', 'getcallargs', 'cwc')} | {'layers': [[w['layer'], w['out']] for w in o['layers']]}
     i = int(at) if at else len(o['events'])
     e = o['events'][i - 1]
+    if 'long' in o:                                           # a long history: the failing call and where the history stood, not 1400 events
+        seen = [json.dumps(x['cc']) for x in o['events'][:i - 1] if 'cc' in x]
+        me = json.dumps(e.get('cc'))
+        chain = o['long']['object'] if isinstance(o['long']['object'], list) else [o['long']['object']]
+        keys = {'part': o['part'], 'op': 'call', 'long_history': True, 'shape': o['long']['shape'], 'object': o['long']['object'],
+                'cache': any('cache' in k for k in chain), 'try': any(k.startswith('try') for k in chain),
+                'kwargs_support': 'kwargs_support' in chain, 'kw_reordered': e.get('order') != [nm for nm, _ in e.get('cc', {}).get('kw', [])]}
+        case = {'sig': o.get('sig', o.get('sigs')), 'call': e.get('cc'), 'order': e.get('order'), 'event': i, 'distinct_combinations_before': len(set(seen)),
+                'first_called_at': seen.index(me) + 1 if me in seen else 0}
+        return clause, keys, case, {'observed': e.get('out'), 'evaluations': e.get('evals')}
     if o['part'] == 'args':
         replays = [x['i'] for x in o['events'][:i] if x['op'] == 'replay']
         keys = {'part': 'args', 'op': {'get': 'getcallargs', 'replay': 'call_with_callargs', 'edit': 'edit'}[e['op']], 'kind': o['kind'] if e['obj'] else 'none',
@@ -1030,11 +1295,16 @@ def c2s(ctx, rep, nbind, nhist, nmemo, nargs, ndeco):
     obs += [observe_memo(rng, 20 if ctx.quick else 40) for _ in range(nmemo)]
     obs += [observe_args(rng, 10 if ctx.quick else 16) for _ in range(nargs)]
     obs += [observe_deco(rng, 14 if ctx.quick else 24) for _ in range(ndeco)]
+    nshort = len(obs)
+    obs += long_observations(ctx)                             # scaled histories: one object, hundreds / thousands of calls
     ctx.evals += sum(1 + 3 * len(o['layers']) if o['part'] == 'bind' else sum(1 for e in o['events'] if e.get('op') != 'mutate') for o in obs)
     nreal = len(obs)
-    obs += canaries(obs)
+    obs += canaries(obs[:nshort])
     if len(obs) != nreal + 5:
         raise Machinery('could not build the five corrupted observations')
+    obs += long_canaries(obs[nshort:nreal])
+    if len(obs) != nreal + 8:
+        raise Machinery('could not build the three corrupted long observations')
     bad = {}
     for lo in range(0, len(obs), CHUNK):                      # one TLC start per chunk keeps the log inside TLC's heap
         for i, clause in ctx.validate('Trace_Decorators', obs[lo:lo + CHUNK]):
@@ -1054,6 +1324,8 @@ def c2s(ctx, rep, nbind, nhist, nmemo, nargs, ndeco):
             ctx.note(('c2s-bind', json.dumps([o['sig'], o['cc']], sort_keys=True)))
         elif o['part'] == 'hist' and sum(1 for e in o['events'] if e['op'] == 'wrap') >= 2:
             ctx.note(('c2s-hist', json.dumps(o['events'], sort_keys=True)))
+        elif 'long' in o:
+            ctx.note(('c2s-long', o['part'], json.dumps(o['long'], sort_keys=True)))
         elif o['part'] == 'memo':
             ctx.note(('c2s-memo', json.dumps(o['events'], sort_keys=True)))
         elif o['part'] in ('args', 'deco') and len(o['events']) > 2:
@@ -1095,7 +1367,7 @@ def run(ctx):
     ctx.mc('MC_Decorators', 'MC_Decorators_today.cfg', must_fail='MechRefinesMC', coverage=False, workers=1)
     lap('mc')
     cases = ctx.generate('MC_Decorators', 'MC_Decorators_gen_quick.cfg' if ctx.quick else 'MC_Decorators_gen_thorough.cfg')
-    parts = {'bind': [], 'heap': [], 'memo': [], 'chain': [], 'exc': [], 'args': [], 'deco': []}
+    parts = {'bind': [], 'heap': [], 'memo': [], 'chain': [], 'exc': [], 'args': [], 'deco': [], 'order': []}
     for c in cases:
         parts[c['part']].append(c)
     if not all(parts.values()):
@@ -1112,6 +1384,7 @@ def run(ctx):
     s2c_memo(ctx, rep, parts['memo'])
     lap('s2c_memo')
     s2c_exc(ctx, rep, parts['exc'])
+    s2c_order(ctx, rep, parts['order'])
     s2c_args(ctx, rep, parts['args'])
     s2c_deco(ctx, rep, parts['deco'])
     lap('s2c_exc_args_deco')
